@@ -731,9 +731,17 @@ namespace bloch::update {
         if (!latest)
             return;
 
-        cache.latestVersion = *latest;
+        // The cache file is line-oriented: the tag is kept without surrounding white space (a
+        // trailing newline would shift the stored notice time and defeat the 72-hour throttle).
+        std::string tag = *latest;
+        while (!tag.empty() && std::isspace(static_cast<unsigned char>(tag.back()))) tag.pop_back();
+        size_t lead = 0;
+        while (lead < tag.size() && std::isspace(static_cast<unsigned char>(tag[lead]))) ++lead;
+        tag.erase(0, lead);
+
+        cache.latestVersion = tag;
         cache.lastChecked = now;
-        maybePrintNotice(*latest, currentVersion, now, cache);
+        maybePrintNotice(tag, currentVersion, now, cache);
         saveCache(cache);
     }
 
